@@ -113,7 +113,7 @@ func newResEv(name, rec string, h int64) chain.M {
 	e := newEv(name, rec, h)
 	e["res"] = chain.M{"err": "", "broken": []any{}, "fixpoint": boolMap(true), "durable": boolMap(true),
 		"lost": listMap(), "diff": listMap(), "nobj": numMap(), "kind": strMap(),
-		"due_now": boolMap(false), "due_next": boolMap(false)}
+		"due_now": boolMap(false), "due_next": boolMap(false), "randoms_src": int64(0), "randoms_lost": int64(0)}
 	return e
 }
 
@@ -307,7 +307,11 @@ func (s *session) roundTrip(mode string, nextHasAuthority bool) *live {
 		rs(e)["fixpoint"], rs(e)["durable"] = boolMap(false), boolMap(false)
 		return fail("export", err.Error())
 	}
-	adjustSDK(gs)
+	// the whole export (cosmos-sdk sections included: auth accounts with their
+	// numbers and sequences, bank balances and supply, staking with the bonded
+	// validator, distribution, ...) is imported as it is — no section needed an
+	// adjustment; InitChain is given an empty validator list, as an application
+	// restarted from an export is
 	bz, err := json.Marshal(gs)
 	if err != nil {
 		e["exported"], e["accepted"] = false, false
@@ -362,6 +366,19 @@ func (s *session) roundTrip(mode string, nextHasAuthority bool) *live {
 	got := evalAll(imp, impCtx, qs, shift)
 	rs(e)["nobj"] = numMap()
 	compareAnswers(e, qs, want, got)
+
+	// diagnostic only: generated random numbers are not in the property's list
+	// of durable objects and the random module does not export them
+	have := map[string]bool{}
+	for _, id := range generatedRandoms(imp, impCtx) {
+		have[id] = true
+	}
+	for _, id := range generatedRandoms(src, srcCtx) {
+		rs(e)["randoms_src"] = rs(e)["randoms_src"].(int64) + 1
+		if !have[id] {
+			rs(e)["randoms_lost"] = rs(e)["randoms_lost"].(int64) + 1
+		}
+	}
 
 	// the registered invariants (skipped by the application at genesis time)
 	if br := invariants(imp, impCtx); len(br) > 0 {
@@ -566,6 +583,8 @@ func driver(mode string, fl *drv.Flags) error {
 			}
 		}
 		return nil
+	case "zhprobe":
+		return zhProbe()
 	case "scenario":
 		return runScenarios(w, fl.CfgStr("name", "all"), fl.CfgStr("keep", ""))
 	}
